@@ -341,7 +341,14 @@ func (vc *VC) assumeWF(v Val) {
 		k := "wf:" + v.T.S + v.Off.S + v.Len.S + v.Cap.S
 		if !vc.facts[k] && !isLiteral(v.Len) {
 			vc.facts[k] = true
-			vc.assumeRaw(And(Le(IntLit(0), v.Off), Le(IntLit(0), v.Len), Le(v.Len, v.Cap), Le(v.Cap, BigLit("4611686018427387904")),
+			// a backing array is at most maxAlloc = 2^48 bytes (linux/amd64)
+			bound := Le(v.Cap, BigLit("4611686018427387904"))
+			if sl, ok := sliceTypeOf(v.Typ); ok {
+				if esz := types.SizesFor("gc", "amd64").Sizeof(sl.Elem()); esz >= 1 {
+					bound = Le(Mul(v.Cap, IntLit(esz)), BigLit("281474976710656"))
+				}
+			}
+			vc.assumeRaw(And(Le(IntLit(0), v.Off), Le(IntLit(0), v.Len), Le(v.Len, v.Cap), bound,
 				Implies(Eq(v.T, IntLit(0)), Eq(v.Cap, IntLit(0)))))
 		}
 	case KIface:
@@ -479,4 +486,12 @@ func (vc *VC) unbox(payload Term, t types.Type) Val {
 		return v
 	}
 	return vc.freshVal(t, "unbox")
+}
+
+func sliceTypeOf(t types.Type) (*types.Slice, bool) {
+	if t == nil {
+		return nil, false
+	}
+	sl, ok := t.Underlying().(*types.Slice)
+	return sl, ok
 }
